@@ -48,7 +48,7 @@ func mcWorlds(tier string) []explore.Case {
 				out = append(out, explore.Case{Entry: e, File: "main.tf", Text: e.Seeds[0], More: more, Family: "multifile", PosTo: -1})
 			}
 			for si, s := range e.Seeds {
-				if tier != "thorough" && si >= 3 {
+				if tier != "thorough" && si >= 5 {
 					break
 				}
 				out = append(out, explore.Case{Entry: e, File: "main.tf", Text: s, Family: "seed", PosTo: -1})
